@@ -31,4 +31,16 @@ def main():
 
 
 if __name__ == '__main__':
-    sys.exit(main())
+    try:
+        rc = main()
+    except SystemExit as e:
+        if isinstance(e.code, str):         # sys.exit('INCONCLUSIVE: ...') from the build helpers: a message, not a verdict
+            print(e.code)
+            sys.exit(2)
+        raise
+    except BaseException as e:          # noqa  - an internal error of the machinery decides nothing: inconclusive, never 1
+        import traceback
+        traceback.print_exc()
+        print(f'INCONCLUSIVE property={sys.argv[1] if len(sys.argv) > 1 else "?"}: internal error of the check: {e!r}'[:400])
+        rc = 2
+    sys.exit(rc)
